@@ -46,6 +46,46 @@ def cone_defs(defs, fmls):
     return out
 
 
+def _symbols(e, acc, seen):
+    todo = [e]
+    while todo:
+        x = todo.pop()
+        if x.get_id() in seen:
+            continue
+        seen.add(x.get_id())
+        if z3.is_quantifier(x):
+            todo.append(x.body())
+        elif z3.is_app(x):
+            if x.decl().kind() == z3.Z3_OP_UNINTERPRETED:
+                acc.add(x.decl().name())
+            todo.extend(x.children())
+
+
+def cone_axioms(axioms, fmls):
+    """axioms are attached only if they share an uninterpreted symbol with the VC (closure): an axiom set over a disjoint signature
+    cannot turn a satisfiable VC unsatisfiable unless it is inconsistent by itself (checked separately as the unit's axiom canary),
+    and leaving it out lets the solver answer `sat` with a model on quantifier-free VCs"""
+    if not axioms:
+        return []
+    syms, seen = set(), set()
+    for f in fmls:
+        _symbols(f, syms, seen)
+    ax_syms = []
+    for a in axioms:
+        s_, sn = set(), set()
+        _symbols(a, s_, sn)
+        ax_syms.append(s_)
+    used, changed = set(), True
+    while changed:
+        changed = False
+        for i, s_ in enumerate(ax_syms):
+            if i not in used and (s_ & syms):
+                used.add(i)
+                syms |= s_
+                changed = True
+    return [axioms[i] for i in sorted(used)]
+
+
 def cvc5_check(smt2, timeout_ms=CVC5_TIMEOUT_MS):
     try:
         import cvc5
@@ -88,8 +128,9 @@ def model_summary(m, limit=40):
 
 def check(axioms, defs, pc, goal, hints=(), canary=False, both=False, budget=1.0, stages=("z3-ematch", "z3-default", "cvc5")):
     """returns dict(status in proved|refuted|unknown|vacuous|canary-ok, solver, ms, model?)"""
-    fmls = list(axioms) + list(pc) + list(hints) + [z3.Not(goal)]
-    fmls = cone_defs(defs, fmls) + fmls
+    core_f = list(pc) + list(hints) + [z3.Not(goal)]
+    core_f = cone_defs(defs, core_f) + core_f
+    fmls = cone_axioms(list(axioms), core_f) + core_f
     t0 = time.time()
     if canary:
         s = z3.Solver()
